@@ -30,6 +30,23 @@ pub(crate) fn get_file_system_operations(
     operations
 }
 
+/// Brings the artifact directory in line with `paths_and_contents` and returns the
+/// number of files written or deleted.
+#[tracing::instrument(skip_all)]
+pub(crate) fn write_artifacts_to_disk(
+    paths_and_contents: &[ArtifactPathAndContent],
+    artifact_directory: &Path,
+    file_system_state: &mut Option<FileSystemState>,
+) -> LocationFreeDiagnosticResult<usize> {
+    let file_system_operations =
+        get_file_system_operations(paths_and_contents, artifact_directory, file_system_state);
+    apply_file_system_operations(&file_system_operations, paths_and_contents).inspect_err(|_| {
+        // Some operations were not applied, so the directory no longer matches the
+        // state we just recorded. Forget it: the next compile recreates everything.
+        *file_system_state = None;
+    })
+}
+
 #[tracing::instrument(skip_all)]
 pub(crate) fn apply_file_system_operations(
     operations: &[FileSystemOperation],
